@@ -50,8 +50,15 @@ FORMS = [b'--bnd-1\r\nContent-Disposition: form-data; name="a"\r\n\r\nvalue\r\n-
          b'bnd-1\r\nContent-Disposition: form-data; name="a"\r\n\r\nv\r\nbnd-1']
 JOBJ = [b'{\r\n  "a": 1,\r\n  "b": "x y",\r\n  "c": [1,2],\r\n  "d": {\r\n  "e": true\r\n},\r\n  "f": null,\r\n  "g": -1.5\r\n}', b'{"k": "v"}', b'{}',
         b'{"a": {"b": {"c": [1, [2, {"d": null}]]}}, "e": "\\"q\\""}']
+# since the JSON scanners read whole UTF-8 characters (F24d) and skip brackets inside strings (F24f): documents whose strings and names hold 2-, 3-
+# and 4-byte characters and brackets at every nesting position - every truncation cuts a multi-byte sequence at every byte (answered badutf8:
+# a Rust String cannot hold it), every mutation puts a foreign byte next to / into one
+JOBJ += ['{\r\n  "é": "€\U0001F600",\r\n  "b": {\r\n  "c}": "]é{"\r\n},\r\n  "d": ["]","[\U0001F600"]\r\n}'.encode(), '{"a": "é"}'.encode(), '{"k": {"b": "}"}}'.encode(),
+         '{"\U0001F600": [{"x": "]"}, "€"], "z": "\u00a0"}'.encode(), '{"a": ٣}'.encode()]
 JARR = [b'[1,2,3]', b'["a","b c"]', b'[true,false]', b'[null,null]', b'[1.5,-2e3]', b'[-1,0,255]', b'[[1],[2,[3]]]', b'[{"a": 1},{"b": [2]}]', b'[]']
+JARR += ['["é","€","\U0001F600"]'.encode(), '[["]"],{"a": "}"}]'.encode(), '[{"é": "]\U0001F600"},["[€"]]'.encode(), '\u00a0["a"]\u3000'.encode(), '[٣,½]'.encode()]
 JPROP = [b'"a": 1', b'"key": "value"', b'"o": {"x": 1}', b'"l": [1,2]', b'"n": null', b'"t": true', b'"f": -1.25e-3']
+JPROP += ['"é": "€"'.encode(), '"k": {"b": "}\U0001F600"}'.encode(), '"l": ["]","é"]'.encode()]
 B64 = [b'', b'QQ==', b'QUI=', b'QUJD', b'QUJDRA==', b'SGVsbG8sIFdvcmxkIQ==', b'AAECAwQFBgcICQ==', b'+/+/']
 HDRS = [b'Content-Type: text/plain', b'Host: localhost:7878\r\n', b'X-Custom :  a: b: c ', b'Content-Disposition: form-data; name="a"', b'a:b']
 CDS = [b'form-data; name="a"; filename="b.txt"', b'inline', b'attachment; filename="x y.pdf"', b'form-data; name="field"', b'attachment',
@@ -102,6 +109,10 @@ entry('Header::parse', 'header', one('hdrparse'), HDRS, b': \r\n', text=True, fu
 entry('ContentDisposition::parse', 'content-disposition', one('cdparse'), CDS, b';="  ', text=True, full=True)
 entry('Base64::decode', 'base64', one('b64dec'), B64, b'=+/', text=True)
 entry('JSON::parse_as_properties', 'json', one('jobjparse'), JOBJ, b'{}[]",: \r\n\\-.', text=True)
+# the single-character read of both JSON scanners (json::read_utf8_char + String::from_utf8) on ARBITRARY bytes: the text entry points above can
+# only be given well-formed UTF-8 (a Rust String), this one sees truncated sequences, a lead byte at the very end, overlong forms, lone continuation bytes
+entry('json::read_utf8_char', 'utf-8', one('jreadchars'), ['aé€😀z'.encode(), '{"é": "€}", "k": ["😀]"]}'.encode(), b'\xed\x9f\xbf\xee\x80\x80\xf4\x8f\xbf\xbf\xe0\xa0\x80\xf0\x90\x80\x80', '["é"]'.encode(), 'é'.encode(), '😀'.encode()],
+      b'\xc2\xe0\xed\xf0\xf4\x80\xa0\xbf\xc0\xf5\xff', full=True)
 entry('JSONProperty::parse', 'json', one('jprop'), JPROP, b'{}[]",: \\-.', text=True)
 entry('RawUnprocessedJSONArray::split_into_vector_of_strings', 'json', one('jsplit'), JARR, b'{}[]",: \\-.', text=True)
 for _t in ('i128', 'i8', 'u64', 'u8', 'bool', 'string', 'null', 'f64', 'f32'):
